@@ -218,10 +218,10 @@ func TestC14(t *testing.T) { runWorldSpec(t, withLevel(specC14)) }
 var specC08 = &worldSpec{
 	Prop: "C08",
 	Profile: &Profile{MinSteps: 15, MaxSteps: 50,
-		W:        weights(map[string]int{"iter": 40, "set": 30, "remove": 14, "save": 12, "reopen": 6, "rollback": 2, "prune": 2, "prune_refuse": 0, "lvfo": 1, "dvf": 0, "setnil": 0}),
+		W:        weights(map[string]int{"iter": 40, "set": 30, "remove": 14, "save": 12, "reopen": 6, "rollback": 2, "prune": 2, "prune_refuse": 0, "lvfo": 1, "dvf": 0, "setnil": 0, "hold": 3}),
 		Backends: []string{"mem", "mem", "prefix"}, NoInitVer: true},
 	Obs:  Observers{Light: true},
-	Rule: "tree states reached by 15-50 generated steps (committed latest with index = FastIterator, historical versions and skipFast = tree walk, working state with uncommitted additions/updates/removals = UnsavedFastIterator, empty) x (start,end) drawn from {nil, empty non-nil, stored/overlay/disk-only keys, predecessors/successors, prefixes, extensions, equal, inverted, outside} x {asc,desc} x stop point; every interface (tree Iterator through Valid/Key/Value/Next/Error/Close, iavl.NewIterator walk, IterateRange, IterateRangeInclusive, Iterate with a stopping callback) must yield exactly sorted(model) ∩ [start,end) (<= end inclusive), each once, in order, then stay invalid; non-trivial = a range query whose bound coincides with a stored/overlay key or splits the key set, with a result neither empty nor everything",
+	Rule: "tree states reached by 15-50 generated steps (committed latest with index = FastIterator, historical versions and skipFast = tree walk, working state with uncommitted additions/updates/removals = UnsavedFastIterator, empty) x (start,end) drawn from {nil, empty non-nil, stored/overlay/disk-only keys, predecessors/successors, prefixes, extensions, equal, inverted, outside} x {asc,desc} x stop point; every interface (tree Iterator through Valid/Key/Value/Next/Error/Close, iavl.NewIterator walk, IterateRange, IterateRangeInclusive, Iterate with a stopping callback) must yield exactly sorted(model) ∩ [start,end) (<= end inclusive), each once, in order, then stay invalid; ImmutableTree handles handed out earlier (hold steps) are iterated again after every later step, also when their version is no longer the latest; non-trivial = a range query whose bound coincides with a stored/overlay key or splits the key set, with a result neither empty nor everything",
 	Nontrivial: func(w *World) bool { return w.Cnt["iter_nontrivial"] > 0 },
 	Known:      knownCommon,
 }
